@@ -6,6 +6,9 @@ CHECKS = {
          "Generated inputs/parameters per iterator tool compared item-by-item (object identity via uids) and ending-by-ending with the stdlib namesake; finds tie-order, off-by-one, strictness and fill bugs; no absence proof.",
          "CPython 3.12 stdlib is the oracle; inputs bounded (<=8 items x <=4 sources quick); no NaN/partial orders", "4/C01"),
 }
+CHECKS["C02"] = ("exploration", "differential PBT (Hypothesis) vs builtins/functools/heapq plus argument-mutation oracle",
+  "Generated inputs (ties, empty, mixed numerics, unorderable/unhashable), list/iterator/async input, key/default/start/initial/n combinations compared with the stdlib result (identity of selected Items, exception type); every argument object must be structurally unchanged afterwards.",
+  "CPython 3.12 stdlib is the oracle; dyadic floats (exact sums); no NaN/partial orders", "4/C02")
 REASONS = {}
 props = [json.loads(l)["id"] for l in open(os.path.join(HERE, "properties.jsonl"))]
 checks = []
